@@ -6,6 +6,8 @@ pub mod codec_case;
 pub mod inchunk;
 pub mod evo_case;
 pub mod hostile_case;
+pub mod stream_case;
+pub mod graph;
 pub mod alloc;
 
 pub use model::{mv, ModelType, Opt};
